@@ -44,10 +44,17 @@ def gen_kernel_cases(ctx, kinds=('kernel', 'wrap')):
     rng = ctx.rng
     cases = []
     per = ctx.pick(3, 40)
+    single_pats = {}
+    for d in range(2, 6):
+        for k in range(d):
+            singles = [[j == i for j in range(d - 1)] for i in range(d - 1)]
+            subsets = [[bool((m >> j) & 1) for j in range(d - 1)] for m in range(1, 2 ** (d - 1))]
+            single_pats[(d, k)] = singles if ctx.quick else singles + subsets
     for d in range(1, 6):
         for k in range(d):
-            for rep in range(per + 1):
-                via = 'wrap' if rep == per else 'kernel'
+            nrep = per if d == 1 else max(per, len(single_pats[(d, k)]) + 1 if ctx.quick else per)
+            for rep in range(nrep + 1):
+                via = 'wrap' if rep == nrep else 'kernel'
                 if via not in kinds:
                     continue
                 if via == 'wrap':
@@ -65,6 +72,11 @@ def gen_kernel_cases(ctx, kinds=('kernel', 'wrap')):
                 p = numgen.pop(rng, d, beta=(d == 1))
                 if rng.random() < 0.15:
                     p['gamma'] = 0.0; p['ms'] = [0.0] * (d - 1)
+                if via == 'kernel' and d >= 2 and rep >= 1:
+                    # sparse migration patterns, systematically: over the repetitions of one kernel every single
+                    # source population gets a turn at being the ONLY one with a non-zero rate, and (thorough) every subset
+                    pat = single_pats[(d, k)][(rep - 1) % len(single_pats[(d, k)])]
+                    p['ms'] = [lib.dyadic(rng, 0.25, 20, 4) if on else 0.0 for on in pat]
                 delj = rng.random() < 0.4
                 if delj and not wv_ok(grids[k], p, None, d):
                     # shrink parameters until the Chang-Cooper formula is well conditioned, else switch it off
